@@ -73,16 +73,16 @@ impl Project for cascette_formats::root::RootFile {
     fn project(&self) -> String {
         // header total_files / named_files are counts derived from the blocks: not projected.
         // Records of a block are a set (looked up by id / name hash): projected in sorted order.
-        let mut s = format!("{:?}", self.version);
+        // Blocks with equal (content, locale) flags are merged and blocks are written in flag
+        // order by build(): the projection is the sorted multiset of (flags, record).
+        let mut recs: Vec<String> = Vec::new();
         for b in &self.blocks {
-            if b.records.is_empty() {
-                continue; // a block without records carries no entries
+            for r in &b.records {
+                recs.push(format!("cf={:#x} lf={:?} {r:?}", b.header.content_flags, b.header.locale_flags));
             }
-            let mut recs: Vec<String> = b.records.iter().map(|r| format!("{r:?}")).collect();
-            recs.sort_unstable();
-            let _ = write!(s, " [cf={:#x} lf={:?} n={} {:?}]", b.header.content_flags, b.header.locale_flags, b.records.len(), recs);
         }
-        s
+        recs.sort_unstable();
+        format!("{:?} n={} {:?}", self.version, recs.len(), recs)
     }
     fn diagnose(&self) -> Option<&'static str> {
         use cascette_formats::root::RootVersion;
@@ -137,7 +137,9 @@ impl Project for cascette_formats::patch_archive::PatchArchive {
     fn project(&self) -> String {
         // block_count and the grouping into blocks are layout; entries are content
         let h = &self.header;
-        let entries: Vec<_> = self.blocks.iter().flat_map(|b| b.file_entries.iter()).collect();
+        // build() sorts entries by target key: projected as a sorted multiset
+        let mut entries: Vec<String> = self.blocks.iter().flat_map(|b| b.file_entries.iter()).map(|e| format!("{e:?}")).collect();
+        entries.sort_unstable();
         format!(
             "v={} fk={} ok={} pk={} bits={} flags={:#x} enc={:?} entries={:?}",
             h.version, h.file_key_size, h.old_key_size, h.patch_key_size, h.block_size_bits, h.flags, self.encoding_info, entries
